@@ -206,6 +206,7 @@ def farthest_candidate(rep, R3, sb, outer, P, where):
         break
     loops = sb.loops()
     forms = []
+    decided = False
     for (bi, si, kind, payload) in sb.defs().get(disp_l, []):
         if kind != "assign" or not any(bi in bl for bl in loops.values()):
             continue
@@ -236,12 +237,199 @@ def farthest_candidate(rep, R3, sb, outer, P, where):
             # largest at i = hi - 1
             ext = ({k: cw * (1 if k == W else 0) + ha[0].get(k, 0) for k in set(ha[0]) | {W}}, a[1] + ha[1] - 1)
         ext = ({k: v for k, v in ext[0].items() if v}, ext[1])
+        # the other end: the nearest candidate
+        if ci == -1:
+            near = ({k: cw * (1 if k == W else 0) - ha[0].get(k, 0) for k in set(ha[0]) | {W}}, a[1] - ha[1] + 1)
+        else:
+            near = ({k: cw * (1 if k == W else 0) + la[0].get(k, 0) for k in set(la[0]) | {W}}, a[1] + la[1])
+        near = ({k: v for k, v in near[0].items() if v}, near[1])
         if ext == ({W: 1}, 0):
             rep.ok(R3, {"farthest_candidate": "displacement = window length is tried"})
+            decided = True
         elif set(ext[0]) <= {W}:
             rep.violation(R3, sb.name, "window-edge", "the largest displacement the search can report is %s, not the window length: a repetition whose only earlier copy starts at the far edge of the window is never found" % fmt_affine(ext), where)
+            decided = True
         else:
             rep.inconc(R3, "search: largest reported displacement is %s" % fmt_affine(ext)[:80])
+        if not near[0] and near[1] <= 2:
+            rep.ok(R3, {"nearest_candidate": "displacement %d is tried" % near[1]})
+        elif not near[0]:
+            rep.violation(R3, sb.name, "window-near", "the smallest displacement the search tries is %d: repetitions closer than that (runs of a short period) are never found" % near[1], where)
+        else:
+            rep.inconc(R3, "search: smallest tried displacement is %s" % fmt_affine(near)[:80])
+            decided = False
+    return decided
+
+
+def result_places(sb, comp):
+    """The places (local, component-or-None) whose value is returned as component `comp` of the result pair."""
+    out = set()
+    for bi, si, st in sb.stmts():
+        if st["k"] == "assign" and st["lhs"]["l"] == 0 and not st["lhs"]["p"] and st["rv"]["k"] == "agg" and len(st["rv"]["fields"]) == 2:
+            op = st["rv"]["fields"][comp]
+            pl = op.get("m") or op.get("c")
+            for _ in range(4):
+                if pl is None:
+                    break
+                if pl["p"]:
+                    e = pl["p"][0]
+                    if len(pl["p"]) == 1 and isinstance(e, dict) and "f" in e and (sb.local_name(pl["l"]) or len(sb.defs().get(pl["l"], [])) != 1):
+                        out.add((pl["l"], e["f"]))
+                    break
+                ds = sb.defs().get(pl["l"], [])
+                if sb.local_name(pl["l"]) or len(ds) != 1 or ds[0][2] != "assign":
+                    out.add((pl["l"], None))
+                    break
+                rv = ds[0][3]["rv"]
+                if rv["k"] in ("use", "cast"):
+                    pl = rv["a"].get("m") or rv["a"].get("c")
+                else:
+                    out.add((pl["l"], None))
+                    break
+    return out
+
+
+def alignment_rule(rep, R3, sb, paths, P, where):
+    """What the search compares and what it reports belong to the same candidate.  Every comparison of two bytes of
+    the input, `bytes[X]` against `bytes[Y]`, looks at positions Y - X apart; the displacement reported for the
+    candidate under test is D.  At every call new_ptr = old_ptr + old_length (R10.2), so for the token to stand for
+    the bytes that were compared,  (Y - X) - D  must be the parameter expression  new_ptr - old_ptr - old_length
+    -- the candidate index and the running offset cancel.  Decided on the affine forms of X, Y and D along each
+    path; independent of how the loops are written.  Returns True when it reached a verdict."""
+    def flat(t):
+        """bytes[a..][k] / bytes[a..b][k] / bytes[k]  ->  (position in `bytes` as a term) ; None if not that"""
+        t = strip_refs(t)
+        while t[0] == "deref":
+            t = strip_refs(t[1])
+        if t[0] != "index":
+            return None
+        off = t[2]
+        base = strip_refs(t[1])
+        for _ in range(4):
+            while base[0] == "deref":
+                base = strip_refs(base[1])
+            if base[0] == "param" and base[1] == 1:
+                return off
+            if base[0] == "call" and "ops::Index" in base[1] and base[1].endswith("::index") and len(base[2]) == 2:
+                rg = strip_refs(base[2][1])
+                if rg[0] == "agg" and rg[2] and rg[2].startswith("std::ops::Range"):
+                    kind = rg[2].rsplit("::", 1)[-1]
+                    if kind in ("Range", "RangeFrom", "RangeInclusive") and rg[4]:
+                        off = ("bin", "Add", rg[4][0], off, "usize")
+                    elif kind not in ("RangeTo", "RangeFull", "RangeToInclusive"):
+                        return None
+                    base = strip_refs(base[2][0])
+                    continue
+            return None
+        return None
+
+    def idx_pair(t):
+        if t[0] == "bin":
+            a, b = t[2], t[3]
+        elif t[0] == "call" and t[1].rsplit("::", 1)[-1] in ("eq", "ne") and "PartialEq" in t[1] and len(t[2]) == 2:
+            a, b = t[2]
+        else:
+            return None
+        x, y = flat(a), flat(b)
+        if x is None or y is None:
+            return None
+        return x, y
+    want = ({norm(P(2)): 1, norm(P(4)): -1, norm(P(5)): -1}, 0)
+    # where the reported displacement lives: second component of the returned pair -- read from the statement that
+    # builds the pair (the path terms have the value already substituted: `best = candidate` would make the
+    # loop counter look like the place)
+    disp_places = set()
+    direct = []
+    for rp in result_places(sb, 1):
+        disp_places.add(rp)
+    for q in paths:
+        if q.end == "ret" and q.ret and q.ret[0] == "agg" and q.ret[1] == "tuple" and len(q.ret[4]) == 2 and not disp_places:
+            d = strip_refs(q.ret[4][1])
+            while d[0] == "cast":
+                d = strip_refs(d[1])
+            if d[0] not in ("const", "var"):
+                direct.append((q, d))
+    verdicts = []
+    seen_cmp = 0
+    for p in paths:
+        cmps = []
+        for (bb, term, vals, neg, dty) in p.conds:
+            ct = cond_truth((term, vals, neg, dty))
+            if ct and ct[0][0] == "bin" and ct[0][1] in ("Ne", "Eq"):
+                ip = idx_pair(ct[0])
+                if ip:
+                    cmps.append(ip)
+            elif term[0] == "call":
+                ip = idx_pair(term)
+                if ip:
+                    cmps.append(ip)
+        if not cmps:
+            continue
+        seen_cmp += len(cmps)
+        # displacement terms set on this path
+        ds = [d for (q, d) in direct if q is p]
+        env = p.env or {}
+        for (l, comp) in disp_places:
+            v = env.get(l)
+            if v is None:
+                continue
+            v = strip_refs(v)
+            if comp is not None:
+                if v[0] == "agg" and len(v) > 4 and isinstance(comp, int) and comp < len(v[4]):
+                    v = strip_refs(v[4][comp])
+                else:
+                    continue
+            if v[0] == "var" and v[1] == l:
+                continue
+            if v[0] == "const":
+                continue
+            ds.append(v)
+        if not ds:
+            continue
+        for d in ds:
+            ad = affine(d, None)
+            if ad is None:
+                verdicts.append(("?", "the displacement %s is not affine" % fmt(d)[:60]))
+                continue
+            for (x, y) in cmps:
+                ax, ay = affine(x, None), affine(y, None)
+                if ax is None or ay is None:
+                    verdicts.append(("?", "a compared position is not affine"))
+                    continue
+                # orient: the look-ahead side is the one that carries new_ptr
+                if norm(P(2)) in ax[0] and norm(P(2)) not in ay[0]:
+                    ax, ay = ay, ax
+                diff = dict(ay[0])
+                for k, v_ in ax[0].items():
+                    diff[k] = diff.get(k, 0) - v_
+                for k, v_ in ad[0].items():
+                    diff[k] = diff.get(k, 0) - v_
+                diff = ({k: v_ for k, v_ in diff.items() if v_}, ay[1] - ax[1] - ad[1])
+                if diff == want:
+                    verdicts.append(("ok", None))
+                elif set(diff[0]) <= {norm(P(i_)) for i_ in (2, 3, 4, 5)}:
+                    verdicts.append(("bad", "the bytes compared are %s apart, the displacement reported for them is %s: with new_ptr = old_ptr + old_length the two differ by %s, so once that is non-zero (the window start moves past 0) the reference points at bytes that were never compared" % (
+                        fmt_affine(({k: v_ for k, v_ in _sub(ay, ax)[0].items()}, _sub(ay, ax)[1]))[:80], fmt_affine(ad)[:60], fmt_affine(_sub(diff, want))[:60])))
+                else:
+                    verdicts.append(("?", "positions compared and displacement differ by %s" % fmt_affine(diff)[:80]))
+    if not verdicts:
+        return False
+    bad = [v for v in verdicts if v[0] == "bad"]
+    unk = [v for v in verdicts if v[0] == "?"]
+    if bad:
+        rep.violation(R3, sb.name, "alignment", bad[0][1], where)
+    elif unk:
+        rep.inconc(R3, "search: " + unk[0][1])
+    else:
+        rep.ok(R3, {"alignment": "(Y - X) - displacement = new_ptr - old_ptr - old_length on %d comparison/displacement pair(s)" % len(verdicts)})
+    return True
+
+
+def _sub(a, b):
+    d = dict(a[0])
+    for k, v in b[0].items():
+        d[k] = d.get(k, 0) - v
+    return ({k: v for k, v in d.items() if v}, a[1] - b[1])
 
 
 def search_contract(facts, rep, R3, sb):
@@ -257,15 +445,26 @@ def search_contract(facts, rep, R3, sb):
     for p in paths:
         for (bb, term, vals, neg, dty) in p.conds:
             if term[0] == "discr" and term[1][0] == "call" and term[1][1].endswith("::next"):
-                rng = [x for x in walk(term[1]) if x[0] == "agg" and x[2] and x[2].endswith("ops::Range")]
+                # the range being iterated: the receiver of next() itself, not a range used to slice something
+                a0 = term[1][2][0] if term[1][2] else ("?",)
+                for _ in range(6):
+                    if a0[0] in ("ref", "deref"):
+                        a0 = a0[1]
+                    elif a0[0] == "call" and (a0[1].endswith("::into_iter") or a0[1].endswith("Iterator::rev")) and a0[2]:
+                        a0 = a0[2][0]       # (a reversed range visits the same candidates)
+                    else:
+                        break
+                rng = [a0] if a0[0] == "agg" and a0[2] and a0[2].endswith("ops::Range") else []
                 if rng:
                     lo, hi = rng[0][4]
                     if any(x == P(5) for x in walk(hi)):
                         outer = (lo, hi, term[1])
                     elif hi == P(3):
                         inner = (lo, hi, term[1])
+    span_decided = False
     if outer is not None:
-        farthest_candidate(rep, R3, sb, outer, P, where)
+        span_decided = bool(farthest_candidate(rep, R3, sb, outer, P, where))
+    aligned = alignment_rule(rep, R3, sb, paths, P, where)
     if outer is None or inner is None:
         rep.inconc(R3, "search loops not recognised")
         return
@@ -275,6 +474,8 @@ def search_contract(facts, rep, R3, sb):
     good = lo == ("const", 0, "usize") and a is not None and list(a[0].values()) == [1] and a[1] in (0, -1)
     if good:
         rep.ok(R3, {"outer": "i in 0 .. old_length%+d" % a[1]})
+    elif span_decided:
+        pass     # the displacements tried (nearest, farthest) were derived from the range and the reported displacement
     else:
         rep.violation(R3, sb.name, "outer-range", "candidates range over %s .. %s: the whole window [0, old_length) is not searched" % (fmt(lo), fmt(hi)[:60]), where)
     ilo, ihi, icall = inner
@@ -287,6 +488,7 @@ def search_contract(facts, rep, R3, sb):
     cmp_ok = None
     inc_ok = None
     upd_ok = None
+    upd_unknown = None
     names = {sb.local_name(l): l for l in range(len(sb.locals)) if sb.local_name(l)}
     for p in paths:
         env = p.env or {}
@@ -308,54 +510,103 @@ def search_contract(facts, rep, R3, sb):
                         cmp_ok = ok if cmp_ok is None else (cmp_ok and ok)
                     equal = (ct[0][1] == "Eq") == ct[1]
         # counter increment only after an equal comparison
-    # update rule
+    # update rule: the best length and its displacement live in two places (two locals, or two components of one
+    # tuple / struct local); on a path where `candidate > best` holds both are replaced by the candidate's, on every
+    # other path through the candidate loop both are left alone
+    def place_key(t):
+        t = strip_refs(t)
+        while t[0] == "cast":
+            t = strip_refs(t[1])
+        if t[0] == "var":
+            return (t[1], None)
+        if t[0] == "field" and strip_refs(t[1])[0] == "var" and isinstance(t[3], int):
+            return (strip_refs(t[1])[1], t[3])
+        return None
+
+    def end_value(env, key):
+        v = env.get(key[0])
+        if v is None:
+            return None          # untouched on this path
+        v = strip_refs(v)
+        if key[1] is None:
+            return None if (v[0] == "var" and v[1] == key[0]) else v
+        for _ in range(4):
+            if v[0] == "agg" and len(v) > 4 and key[1] < len(v[4]):
+                return strip_refs(v[4][key[1]])
+            if v[0] == "var" and v[1] == key[0]:
+                return None
+            if v[0] == "var" and env.get(v[1]) is not None:
+                v = strip_refs(env[v[1]])
+                continue
+            break
+        return ("?",)
+    disp_key = None
+    len_key = None
+    r0, r1 = result_places(sb, 0), result_places(sb, 1)
+    if len(r0) == 1 and len(r1) == 1:
+        len_key, disp_key = list(r0)[0], list(r1)[0]
     strict = 0
     for p in paths:
         env = p.env or {}
         gt = None
         for (bb, term, vals, neg, dty) in p.conds:
             ct = cond_truth((term, vals, neg, dty))
-            if ct and ct[0][0] == "bin" and ct[0][1] in ("Gt", "Ge", "Lt", "Le") and ct[0][2][0] == "var" and ct[0][3][0] == "var":
-                gt = (ct[0][1], ct[0][2], ct[0][3], ct[1])
-        if gt is None:
+            if ct and ct[0][0] == "bin" and ct[0][1] in ("Gt", "Ge", "Lt", "Le") and len_key is not None:
+                kl, kr = place_key(ct[0][2]), place_key(ct[0][3])
+                op_ = ct[0][1]
+                if kl == len_key and kr != len_key:
+                    # best OP candidate: mirror
+                    op_ = {"Gt": "Lt", "Ge": "Le", "Lt": "Gt", "Le": "Ge"}[op_]
+                    gt = (op_, ct[0][3], ct[0][2], ct[1])
+                elif kr == len_key and kl != len_key:
+                    gt = (op_, ct[0][2], ct[0][3], ct[1])
+        if gt is None or disp_key is None:
             continue
         op, cur, best, truth = gt
-        best_l = best[1]
-        new_best = env.get(best_l)
-        # which local holds the displacement: the other component of the returned tuple
-        disp_l = None
-        for q in paths:
-            if q.end == "ret" and q.ret[0] == "agg" and q.ret[1] == "tuple":
-                for x in q.ret[4]:
-                    if x[0] == "var" and x[1] != best_l:
-                        disp_l = x[1]
-        if disp_l is None:
+        new_best = end_value(env, len_key)
+        new_disp = end_value(env, disp_key)
+        if new_best == ("?",) or new_disp == ("?",):
+            upd_unknown = "the value of the best match at the end of a path is not followed"
             continue
-        new_disp = env.get(disp_l)
-        if op not in ("Gt", "Ge"):
-            upd_ok = "the best match is replaced under %s (specified: when the candidate is longer)" % op
+        if op in ("Lt", "Le"):
+            # candidate < best / candidate <= best : the improvement is the *false* branch
+            op = {"Lt": "Ge", "Le": "Gt"}[op]
+            truth = not truth
+        if op == "Ge":
+            if truth and new_best is not None:
+                upd_ok = "the best match is replaced when the candidate is merely as long (specified: strictly longer -- the first longest candidate wins)"
             continue
         if truth:
             strict += 1
             d = new_disp
-            if d is not None and d[0] == "field" and d[1][0] == "bin":
-                d = d[1]
-            okd = d is not None and d[0] == "bin" and d[1].startswith("Sub") and d[2] == P(5) and any(x[0] == "downcast" for x in walk(d[3]))
-            if new_best != cur or not okd:
+            ad = affine(d, None) if d is not None else None
+            okd = ad is not None and ad[1] == 0 and ad[0].get(norm(P(5))) == 1 and len(ad[0]) >= 2 and all(v_ == -1 for k_, v_ in ad[0].items() if k_ != norm(P(5)))
+            same = new_best is not None and norm(strip_refs(new_best)) == norm(strip_refs(cur))
+            if not same and new_best is not None and place_key(cur) is not None:
+                # candidate held in a tuple/struct local: compare through the environment
+                cv = end_value(env, place_key(cur))
+                same = cv is not None and cv != ("?",) and norm(cv) == norm(strip_refs(new_best))
+            if not same or (not okd and not aligned):
                 upd_ok = "on improvement best becomes %s and displacement %s (specified: candidate length, old_length - i)" % (fmt(new_best)[:30] if new_best else None, fmt(new_disp)[:50] if new_disp else None)
         else:
-            if new_best not in (None, best) and new_best != ("var", best_l, sb.local_name(best_l)):
+            if new_best is not None:
                 upd_ok = "best is overwritten without an improvement"
-            if new_disp is not None and new_disp != ("var", disp_l, sb.local_name(disp_l)):
+            if new_disp is not None:
                 upd_ok = "displacement changes without an improvement"
     if cmp_ok:
         rep.ok(R3, {"compare": "bytes[old_ptr+i+j] vs bytes[new_ptr+j]"})
+    elif aligned:
+        pass      # decided (or declared undecided) by the alignment rule on the affine forms
+    elif cmp_ok is None:
+        rep.inconc(R3, "search: the byte comparison was not recognised")
     else:
         rep.violation(R3, sb.name, "compare", "the byte comparison is not window[old_ptr + i + j] against lookahead[new_ptr + j]", where)
     if strict and upd_ok is None:
         rep.ok(R3, {"update": "strict improvement; (best, displacement) assigned together"})
+    elif upd_ok is None:
+        rep.inconc(R3, "search: the best-match update was not recognised%s" % ((" (%s)" % upd_unknown) if upd_unknown else ""))
     else:
-        rep.violation(R3, sb.name, "update", upd_ok or "no strict-improvement update found", where)
+        rep.violation(R3, sb.name, "update", upd_ok, where)
     # result: (best as i32, disp)
     rets = [p for p in paths if p.end == "ret" and p.ret[0] == "agg" and p.ret[1] == "tuple"]
     if rets and all(len(p.ret[4]) == 2 for p in rets):
